@@ -648,7 +648,12 @@ class C17(core.Check):
         "of register_palette_entry / aliases / set_terminal_properties); undefined_name_defaults.  Nothing is refuted or "
         "partial (the four defects this check found were repaired: 0eea584, b5288ea, c165cd7, b2a34b1; their inputs are "
         "regression cases in corpus/C17).  Correspondence/oracle only: that the hand model matches the Python code (exact extracted-model comparison on "
-        "every case), widths/encodings of real characters, zero-width characters inside segments that are cut, "
+        "every case); that a Text re-tagged with set_text while its canvases are alive (alone, in AttrMap, in "
+        "AttrMap/Pile/Columns) shows the attributes of the CURRENT markup (compared with the model's fresh render and "
+        "judged by the oracle - the canvas cache itself is not modelled here); that whole frames written by "
+        "Screen.draw_screen (bottom-right cell trick, erase to end of line), read by a small terminal, give every cell "
+        "the pen of its own attribute's palette entry (oracle only - draw_screen is not in this model); "
+        "widths/encodings of real characters, zero-width characters inside segments that are cut, "
         "Pile/Columns geometry.")
     level_note = (
         "Trusted: Coq kernel, ExtrOcamlBasic extraction + OCaml driver, the hand-written model (tied by the correspondence, "
@@ -660,7 +665,11 @@ class C17(core.Check):
             "encoding; random well-formed and malformed layouts through apply_text_layout; rendered Text rows rich in "
             "double-width characters with an attribute boundary at every character clipped left/right/both at every column "
             "through TextCanvas.content(trim_left, cols), CompositeCanvas.pad_trim_left_right(-l, -r) and an Overlay "
-            "(exhaustive for 3-character rows); trees of AttrMap/AttrWrap "
+            "(exhaustive for 3-character rows); sequences of set_text with the same characters and fresh tag structures on a "
+            "live Text (alone / wrapped in AttrMap / in AttrMap(Pile(Columns))) rendered at the same size with all canvases "
+            "kept alive; whole frames (1-3 rows, 2-8 columns, rows filled to the right edge with attribute changes at every "
+            "position incl. before the corner cell, rows ending in blanks, back-colour-erase on/off, 16 and 256 colours, "
+            "unregistered names) through Screen.draw_screen decoded by a terminal; trees of AttrMap/AttrWrap "
             "(dict / single / focus maps, None keys and values) over Text/Pile/Columns; every 16-colour AttrSpec and "
             "sampled 88/256/true-colour ones x flags x bright-is-bold/blink through _attrspec_to_escape; palette "
             "histories (entries, aliases, set_terminal_properties) observed in draw_screen output; non-trivial = "
@@ -671,7 +680,8 @@ class C17(core.Check):
         "hand-written model Model/AttrFlow.v (validated by this correspondence, not proved against Python)",
         "Base/PyList.v slice_indices (Python slice clamping, validated by C16)",
         "urwid's own text layout, AttrSpec parsing, str_util widths and apply_target_encoding lengths, used as input data",
-        "Python oracle in harness/props/c17.py including its SGR decoder (written from ECMA-48 / xterm ctlseqs)",
+        "Python oracle in harness/props/c17.py including its SGR decoder and its small frame terminal (cursor addressing, "
+        "insert mode, erase in line with back colour erase, backspace; written from ECMA-48 / xterm ctlseqs)",
     ]
     assumptions = [
         "attribute names are compared with ==; the universe used has pairwise different names",
